@@ -11,10 +11,14 @@
 (* Accepted prefix programs re-render and re-parse to the same tree.       *)
 (***************************************************************************)
 EXTENDS Parser
-CONSTANTS MaxLen, AsBuilt
+CONSTANTS MaxLen, AsBuilt, Reduced
 
 Tk(ty, tx) == [ty |-> ty, tx |-> tx]
-Alphabet == {Tk("lParen", <<"(">>), Tk("rParen", <<")">>), Tk("lBracket", <<"[">>), Tk("rBracket", <<"]">>),
+\* Reduced: the tokens that matter to the shunting-yard stacks, so that longer sequences
+\* can be enumerated (guard-directed case generation, see EmitRisky)
+Alphabet == IF Reduced THEN {Tk("lParen", <<"(">>), Tk("rParen", <<")">>), Tk("lBracket", <<"[">>), Tk("comma", <<",">>),
+                             Tk("integer", <<"1">>), Tk("ident", <<"x">>), Tk("ident", <<"+">>), Tk("ident", <<"f">>)} ELSE
+            {Tk("lParen", <<"(">>), Tk("rParen", <<")">>), Tk("lBracket", <<"[">>), Tk("rBracket", <<"]">>),
              Tk("comma", <<",">>), Tk("integer", <<"1">>), Tk("str", <<"a">>), Tk("ident", <<"x">>),
              Tk("ident", <<"+">>), Tk("ident", <<"*">>), Tk("ident", <<"!">>), Tk("ident", <<"=", "=">>),
              Tk("ident", <<"&", "&">>), Tk("ident", <<"f">>), Tk("ident", <<"i", "f">>), Tk("ident", <<"q">>)}
@@ -52,4 +56,12 @@ InfixMeansPrefix ==
   \A pc \in PCs : LET p == ParseInfix(T, pc, AsBuilt, T = <<>>) IN
                   (p.r = "ok" /\ p.tree.k \notin {"c", "v"}) =>
                      (ParsePrefix(Render(p.tree), pc, AsBuilt).r = "ok" /\ ParsePrefix(Render(p.tree), pc, AsBuilt).tree = p.tree)
+\* Guard-directed generation: the as-built parser model "panics" exactly where the code
+\* indexes the token list or pops a stack under a bounds check.  Every token sequence that
+\* reaches such a point is printed and replayed on the real Compile (a missing or weakened
+\* bounds check in the code panics on exactly these inputs).
+RECURSIVE Joined(_)
+Joined(ts) == IF ts = <<>> THEN "" ELSE Concat(ts[1].tx) \o (IF Len(ts) > 1 THEN " " ELSE "") \o Joined(Tail(ts))
+ReachesGuard == \E pc \in PCs : ParsePrefix(T, pc, TRUE).r = "panic" \/ ParseInfix(T, pc, TRUE, T = <<>>).r = "panic"
+EmitRisky == ReachesGuard => PrintT("CASE " \o Joined(T))
 =============================================================================
